@@ -103,13 +103,17 @@ def cleanup_api_ns(ns):
                 pass
 
 
-def run_api(prog, inputs, neutral, modulus=None, ignore=False, between=None, chunks=None, pre=None):
-    """Execute on the real API. `neutral` is a boot.Neutral instance."""
+def run_api(prog, inputs, neutral, modulus=None, ignore=False, between=None, chunks=None, pre=None, toggle=False):
+    """Execute on the real API. `neutral` is a boot.Neutral instance.
+    toggle: error checks are switched off and on again through the public setter before the program starts"""
     from vf import recorder
     import pysnark.runtime as rt
     neutral(bitlength=prog.bl, resolution=prog.res, modulus=modulus)
     ns = api_names()
     ns["I"] = list(inputs)
+    if toggle:
+        rt.ignore_errors(True)
+        rt.ignore_errors(False)
     if ignore:
         rt.ignore_errors(True)
     if pre is not None:
@@ -147,7 +151,7 @@ INT_T = [
     ("add_ss", "i", "{i} + {i}"), ("add_sc", "i", "{i} + {K}"), ("add_cs", "i", "{K} + {i}"),
     ("sub_ss", "i", "{i} - {i}"), ("sub_sc", "i", "{i} - {K}"), ("sub_cs", "i", "{K} - {i}"),
     ("mul_ss", "i", "{i} * {i}"), ("mul_sc", "i", "{i} * {K}"), ("mul_cs", "i", "{K} * {i}"),
-    ("neg", "i", "-{i}"), ("pos", "i", "+{i}"), ("abs", "i", "abs({i})"),
+    ("neg", "i", "-{i}"), ("pos", "i", "+{i}"), ("abs", "i", "abs({i})"), ("alias", "i", "{i}"),
     ("truediv_ss", "i", "{i} / {i}"), ("truediv_sc", "i", "{i} / {k}"), ("truediv_cs", "i", "{K} / {i}"), ("truediv_sN", "i", "{i} / {N}"),
     ("floordiv_sN", "i", "{i} // {N}"), ("mod_sN", "i", "{i} % {N}"),
     ("floordiv_ss", "i", "{i} // {i}"), ("floordiv_sc", "i", "{i} // {k}"), ("floordiv_cs", "i", "{K} // {i}"),
@@ -185,7 +189,7 @@ BOOL_T = [
     ("band_ss", "b", "{b} & {b}"), ("band_sc", "b", "{b} & {B}"), ("band_cs", "b", "{B} & {b}"),
     ("bor_ss", "b", "{b} | {b}"), ("bor_sc", "b", "{b} | {B}"), ("bor_cs", "b", "{B} | {b}"),
     ("bxor_ss", "b", "{b} ^ {b}"), ("bxor_sc", "b", "{b} ^ {B}"), ("bxor_cs", "b", "{B} ^ {b}"),
-    ("bnot", "b", "~{b}"), ("bpos", "b", "+{b}"), ("babs", "i", "abs({b})"), ("bifelse", "i", "{b}.if_else({i}, {K})"),
+    ("bnot", "b", "~{b}"), ("bpos", "b", "+{b}"), ("balias", "b", "{b}"), ("babs", "i", "abs({b})"), ("bifelse", "i", "{b}.if_else({i}, {K})"),
     ("badd", "i", "{b} + {b}"), ("badd_i", "i", "{b} + {i}"), ("bsub", "i", "{b} - {i}"), ("brsub", "i", "{K} - {b}"),
     ("bmul", "i", "{b} * {i}"), ("bmul_b", "i", "{b} * {b}"), ("bneg", "i", "-{b}"),
     ("beq", "b", "{b} == {b}"), ("bne", "b", "{b} != {b}"), ("blt", "b", "{b} < {b}"), ("bge", "b", "{b} >= {B}"),
@@ -200,7 +204,7 @@ FXP_T = [
     ("fadd_fb", "f", "{f} + {b}"), ("fadd_bf", "f", "{b} + {f}"),
     ("fsub_ff", "f", "{f} - {f}"), ("fsub_fi", "f", "{f} - {i}"), ("fsub_if", "f", "{i} - {f}"),
     ("fsub_cf", "f", "{c} - {f}"), ("fsub_Kf", "f", "{K} - {f}"),
-    ("fneg", "f", "-{f}"), ("fabs", "f", "abs({f})"),
+    ("fneg", "f", "-{f}"), ("fabs", "f", "abs({f})"), ("falias", "f", "{f}"),
     ("fmul_ff", "f", "{f} * {f}"), ("fmul_fi", "f", "{f} * {i}"), ("fmul_if", "f", "{i} * {f}"),
     ("fmul_fc", "f", "{f} * {c}"), ("fmul_cf", "f", "{c} * {f}"), ("fmul_fK", "f", "{f} * {K}"),
     ("fmul_bf", "f", "{b} * {f}"),
@@ -230,6 +234,7 @@ ASSERT_T = [
     ("fassert_lt", None, "{f}.assert_lt({f})"), ("fassert_ge", None, "{f}.assert_ge({c})"),
     ("fassert_eq", None, "{f}.assert_eq({f})"),
     ("val_i", None, "{i}.val()"), ("val_b", None, "{b}.val()"), ("val_f", None, "{f}.val()"),
+    ("val_conv", None, "LinCombBool({i}).val()"), ("val_conv_not", None, "(~LinCombBool({i})).val()"), ("val_conv_and", None, "(LinCombBool({i}) & {b}).val()"),
 ]
 ARRAY_T = [
     ("arr_new", "a", "Array([{i}, {i}, {i}])"), ("arr_new_c", "a", "Array([{K}, {i}, {K}, {K}])"),
@@ -529,7 +534,7 @@ def mutate_inputs(prog, rnd, mode="valid", p=None):
                                 ([p, -p, 2 * p, p + rnd.randint(-3, 3)] if p else []))
             out.append(nv)
         elif ctor in ("PrivValBool", "PubValBool"):
-            out.append(rnd.randint(0, 1))
+            out.append(rnd.randint(0, 1))          # the constructors refuse anything else in every mode
         else:
             if mode == "valid":
                 out.append(float(rnd.randint(-4, 4)) if rnd.random() < 0.3 else rnd.randint(-4 << prog.res, 4 << prog.res) / (1 << prog.res))
